@@ -18,7 +18,7 @@ RULE = ("1-3 local TagLibrary objects and the module-level API; 5-40 ops from ad
 COMPONENTS = {"real": ["ECAgent.Tags.TagLibrary (add_tag, get_tag_name, itemize, __len__, attribute lookup)",
                        "module-level add_tag / get_tag_name / itemize / __getattr__ and the global library"],
               "stub": ["none"]}
-PROBES = ["hostile_method_name", "hostile_private_attr", "hostile_dunder", "hostile_module_global", "hostile_arbitrary",
+PROBES = ["name_differing_only_in_case_from_a_present_tag", "hostile_method_name", "hostile_private_attr", "hostile_dunder", "hostile_module_global", "hostile_arbitrary",
           "two_libraries_interleaved", "failed_add_consumes_no_id", "duplicate_rejected", "none_rejected",
           "id_out_of_range_rejected", "global_library_used", "hostile_accepted", "hostile_rejected", "private_name_looked_up_on_global_library", "name_given_as_str_enum_member"]
 TECHNIQUE = "deterministic simulation: seeded add/lookup histories with hostile names over several libraries, pristine forked process per history, list reference with bijection invariants"
@@ -105,7 +105,17 @@ def generate(rng, tier):
             ops.append({"lib": lib, "op": "itemize"})
         else:
             ops.append({"lib": lib, "op": "len"})
-    return {"nlib": nlib, "ops": ops}
+    sc = {"nlib": nlib, "ops": ops}
+    if rng.random() < 0.2:
+        # (drawn last) ordinary identifiers that differ from one another only in case ("PREY" / "prey" / "Prey"): different names,
+        # each of which gets its own id
+        for o in ops:
+            if o["op"] in ("add", "by_name") and o.get("name") in PLAIN and not o.get("as_enum") and rng.random() < 0.4:
+                t = rng.choice([o["name"].lower(), o["name"].capitalize(), o["name"].swapcase()])
+                if name_class(t) == "plain":
+                    o["name"] = t
+        sc["case_twins"] = True
+    return sc
 
 
 class LocalLib:
@@ -206,6 +216,8 @@ def execute(sc, ctx):
                 ctx.probe("failed_add_consumes_no_id")
                 shape.append([str(key), "dup", cls])
             elif cls == "plain":
+                if any(n != name and n.upper() == name.upper() for n in names):
+                    ctx.probe("name_differing_only_in_case_from_a_present_tag")
                 if op.get("as_enum") and name in PLAIN:
                     ctx.probe("name_given_as_str_enum_member")
                     ctx.expect_ok("add", L.add, SPECIES[name])
